@@ -8,6 +8,7 @@ import (
 	"strings"
 
 	"github.com/hashicorp/hcl-lang/lang"
+	"github.com/hashicorp/hcl/v2"
 
 	h "lssim/harness"
 	"lssim/world"
@@ -156,6 +157,10 @@ func (o *C06) Check(x *h.Exec, ev *h.Event) {
 				return rep("edit-file", kind, fmt.Sprintf("candidate %d %q edits %q, requested %q", i, cd.Label, te.Range.Filename, q.File))
 			}
 			s, e := te.Range.Start.Byte, te.Range.End.Byte
+			if te.Range.End == (hcl.Pos{}) && s > 0 {
+				// end left at 0,0 by the parser's recovery of an unterminated construct
+				return rep("edit-range-zero-end", kind, fmt.Sprintf("candidate %d %q: range %v (bytes %d..%d, file %d bytes)", i, cd.Label, te.Range, s, e, len(f.Text)))
+			}
 			if s < 0 || e > len(f.Text) || s > e {
 				return rep("edit-range-malformed", kind, fmt.Sprintf("candidate %d %q: range %v (bytes %d..%d, file %d bytes)", i, cd.Label, te.Range, s, e, len(f.Text)))
 			}
